@@ -65,9 +65,10 @@ fn io_de(out: &mut Out, shape: &Shape, stream: &[u8], sch: Vec<usize>, fail_at: 
                   "scratch_len":scratch_len,"entry": if eio {"eio"} else {"io"},"msgs":msgs,"log":log}));
 }
 
-fn io_ser(out: &mut Out, shape: &Shape, v: &Val, sch: Vec<usize>, fail_at: Option<usize>, eio: bool, zero: bool) {
+fn io_ser(out: &mut Out, shape: &Shape, v: &Val, sch: Vec<usize>, fail_at: Option<usize>, eio: bool, zero: bool, flush_fail: bool) {
     let mut w = Io::writer(sch.clone(), fail_at);
     w.zero_on_full = zero;
+    w.flush_fail = flush_fail;
     let sv = SV(shape, v);
     let r = catch(|| if eio { postcard::to_eio(&sv, Eio(&mut w)).map(|_| ()) } else { postcard::to_io(&sv, &mut w).map(|_| ()) });
     let res = match r {
@@ -75,7 +76,7 @@ fn io_ser(out: &mut Out, shape: &Shape, v: &Val, sch: Vec<usize>, fail_at: Optio
         Ok(Err(e)) => json!({"ok":0,"err":errname(&e)}),
         Err(p) => json!({"ok":0,"err":"panic","at":p}),
     };
-    out.ev(json!({"op":"io_ser","shape":shape.to_json(),"value":v.to_json(),"sched":sch,"fail_at":fail_at.map(|x| x as i64).unwrap_or(-1),"zero":zero as u8,
+    out.ev(json!({"op":"io_ser","shape":shape.to_json(),"value":v.to_json(),"sched":sch,"fail_at":fail_at.map(|x| x as i64).unwrap_or(-1),"zero":zero as u8,"flush_fail":flush_fail as u8,
                   "entry": if eio {"eio"} else {"io"},"res":res,"written":jb(&w.data),"flushed":w.flushed,"log":w.log.clone()}));
 }
 
@@ -122,18 +123,19 @@ pub fn run(a: &Args) {
         // ---- writer side
         let v = gen::gval(&mut r, &s, false);
         let plain = postcard::to_allocvec(&SV(&s, &v)).expect("encode");
-        io_ser(&mut out, &s, &v, sched(&mut r), None, eio, false);
+        io_ser(&mut out, &s, &v, sched(&mut r), None, eio, false, false);
+        io_ser(&mut out, &s, &v, sched(&mut r), None, eio, false, true); // the final flush fails
         if plain.len() <= 24 {
             for f in 0..=plain.len() {
-                io_ser(&mut out, &s, &v, sched(&mut r), Some(f), eio, false);
+                io_ser(&mut out, &s, &v, sched(&mut r), Some(f), eio, false, false);
                 if !eio {
-                    io_ser(&mut out, &s, &v, sched(&mut r), Some(f), false, true); // bounded writer reporting "full" as Ok(0)
+                    io_ser(&mut out, &s, &v, sched(&mut r), Some(f), false, true, false); // bounded writer reporting "full" as Ok(0)
                 }
             }
         } else {
             for _ in 0..6 {
                 let f = r.gen_range(0..=plain.len());
-                io_ser(&mut out, &s, &v, sched(&mut r), Some(f), eio, r.gen::<bool>() && !eio);
+                io_ser(&mut out, &s, &v, sched(&mut r), Some(f), eio, r.gen::<bool>() && !eio, false);
             }
         }
         // ---- reader side: 1..3 messages back to back on one stream
